@@ -71,6 +71,15 @@ Definition ev_proj (e : event) : list (Z * Z) :=
   | _ => []
   end.
 
+(* the erc20 relation is a key set in the store: compare it as a set (descending, without duplicates); the order and
+   multiplicity of the model's list only differ from that after a genesis round trip has restarted the id counter (C05-2) *)
+Fixpoint ins_desc (x : Z) (l : list Z) : list Z :=
+  match l with
+  | [] => [x]
+  | y :: r => if y <? x then x :: l else if y =? x then l else y :: ins_desc x r
+  end.
+Definition as_set_desc (l : list Z) : list Z := fold_right ins_desc [] l.
+
 (* which projections differ (empty = the model agrees with the implementation on this step) *)
 Definition step_diff (keys : list acct_key) (s' : state) (evs : list event) (r : res) (ob : obs) : list Z :=
   (if Bool.eqb (match r with Ok => true | _ => false end) (o_ok ob) then [] else [0])
@@ -85,7 +94,7 @@ Definition step_diff (keys : list acct_key) (s' : state) (evs : list event) (r :
   ++ (let '(a, b, c) := o_heights ob in if (evn s' =? a) && (obs_ext s' =? b) && (obs_fx s' =? c) then [] else [9])
   ++ (if list_eqb Z.eqb (map (get_bal (bal s')) keys) (o_bals ob) then [] else [10])
   ++ (if list_eqb pairZ_eqb (flat_map ev_proj evs) (o_events ob) then [] else [11])
-  ++ (if list_eqb Z.eqb (relation s') (o_relation ob) then [] else [12]).
+  ++ (if list_eqb Z.eqb (as_set_desc (relation s')) (o_relation ob) then [] else [12]).
 
 Fixpoint steps_diag (keys : list acct_key) (i : Z) (s : state) (steps : list (xop * obs)) : list (Z * list Z) :=
   match steps with
